@@ -59,6 +59,11 @@ type U struct {
 }
 
 // state is the (immutable) content of the store.
+type Blob struct {
+	Id  []byte
+	Val string
+}
+
 type state struct {
 	Flag  int64
 	Items []Node
@@ -170,6 +175,7 @@ func changeIndex(name string) int {
 var queries = map[string]string{
 	"flag":   `{ flag }`,
 	"items":  `{ items { id val } }`,
+	"blobs":  `{ blobs { id val } }`,
 	"thing":  `{ thing { __typename ... on A { id x } ... on B { id y } } }`,
 	"maybe":  `{ maybe { id val } flag }`,
 	"all":    `{ flag items { id } maybe { val } }`,
@@ -272,6 +278,15 @@ func (w *world) buildSchema() *graphql.Schema {
 		}
 		return out
 	})
+	// the same list as objects whose key is a byte string (a binary id)
+	q.FieldFunc("blobs", func(ctx context.Context) []*Blob {
+		st := w.dep(ctx)
+		out := make([]*Blob, len(st.Items))
+		for i, n := range st.Items {
+			out[i] = &Blob{Id: []byte(fmt.Sprint("k", n.Id)), Val: n.Val}
+		}
+		return out
+	})
 	q.FieldFunc("thing", func(ctx context.Context) *U {
 		switch w.dep(ctx).Kind {
 		case "A":
@@ -342,6 +357,7 @@ func (w *world) buildSchema() *graphql.Schema {
 	})
 	node := s.Object("Node", Node{})
 	node.Key("id")
+	s.Object("Blob", Blob{}).Key("id")
 	s.Object("A", A{}).Key("id")
 	s.Object("B", B{}).Key("id")
 	s.Object("C", C{})
